@@ -54,23 +54,25 @@ impl CopySource {
     /// # Errors
     /// Returns an error if the header is invalid
     pub fn parse(header: &str) -> Result<Self, ParseCopySourceError> {
-        let header = urlencoding::decode(header).map_err(|_| ParseCopySourceError::InvalidEncoding)?;
-        let header = header.strip_prefix('/').unwrap_or(&header);
+        // the version id is a query on the encoded source path: split before decoding,
+        // an encoded `?` (`%3F`) belongs to the key
+        let (path, version_id) = match header.split_once('?') {
+            Some((path, query)) => {
+                let version_id = query
+                    .split_once('=')
+                    .and_then(|(name, val)| (name == "versionId").then_some(val));
+                (path, version_id)
+            }
+            None => (header, None),
+        };
+
+        let path = urlencoding::decode(path).map_err(|_| ParseCopySourceError::InvalidEncoding)?;
+        let path = path.strip_prefix('/').unwrap_or(&path);
 
         // FIXME: support access point
-        match header.split_once('/') {
+        match path.split_once('/') {
             None => Err(ParseCopySourceError::PatternMismatch),
-            Some((bucket, remaining)) => {
-                let (key, version_id) = match remaining.split_once('?') {
-                    Some((key, remaining)) => {
-                        let version_id = remaining
-                            .split_once('=')
-                            .and_then(|(name, val)| (name == "versionId").then_some(val));
-                        (key, version_id)
-                    }
-                    None => (remaining, None),
-                };
-
+            Some((bucket, key)) => {
                 if !path::check_bucket_name(bucket) {
                     return Err(ParseCopySourceError::InvalidBucketName);
                 }
@@ -93,7 +95,11 @@ impl CopySource {
         let mut buf = String::new();
         match self {
             CopySource::Bucket { bucket, key, version_id } => {
-                write!(&mut buf, "{bucket}/{key}").unwrap();
+                // the inverse of `parse`: the key is percent-encoded, `/` is kept
+                write!(&mut buf, "{bucket}").unwrap();
+                for segment in key.split('/') {
+                    write!(&mut buf, "/{}", urlencoding::encode(segment)).unwrap();
+                }
                 if let Some(version_id) = version_id {
                     write!(&mut buf, "?versionId={version_id}").unwrap();
                 }
